@@ -667,15 +667,17 @@ package cose
 //@             && Rules(asmap(p), true) && int64Labels(asmap(p)))
 
 //@ func (*ProtectedHeader).UnmarshalCBOR
-//@   ensures accept [C01, C02, C03, C04, C05, C06, C07, C13, C19]: err == nil ==> h != nil && protDecoded(bytes(data), *h) && fresh(*h)
+//@   ensures accept [C01, C02, C03, C04, C05, C06, C07, C13]: err == nil ==> h != nil && protDecoded(bytes(data), *h) && fresh(*h)
 //@   ensures alg_typed [C01, C02, C03, C04, C06, C07]: err == nil ==> (forall k any :: k in asmap(*h) && isIntKey(k) && intOf(k) == 1 && algIsInt(asmap(*h)[k]) ==>
 //@         asmap(*h)[k] is Algorithm && algIsInt(dec_map_val(decMode, bstr_content(bytes(data)))[k]) && algInt(asmap(*h)[k]) == algInt(dec_map_val(decMode, bstr_content(bytes(data)))[k]))
-//@   ensures values_kept [C01, C02, C03, C04, C05, C06, C07, C09, C19]: err == nil && blen(bstr_content(bytes(data))) > 0 ==> (forall k any :: k in asmap(*h) && !(isIntKey(k) && intOf(k) == 1) ==>
+//@   ensures values_kept [C01, C02, C03, C04, C05, C06, C07, C09]: err == nil && blen(bstr_content(bytes(data))) > 0 ==> (forall k any :: k in asmap(*h) && !(isIntKey(k) && intOf(k) == 1) ==>
 //@         asmap(*h)[k] == dec_map_val(decMode, bstr_content(bytes(data)))[k])
 //@   ensures complete [C01, C07]: h != nil && len(data) > 0 && b_major(bytes(data)) == 2 && bstr_wf(bytes(data))
 //@         && (blen(bstr_content(bytes(data))) > 0 ==> b_major(bstr_content(bytes(data))) == 5 && dec_labels_err(decMode, bstr_content(bytes(data))) == nil
 //@               && dec_shape_err(decMode, bstr_content(bytes(data)), "map[any]any") == nil)
 //@         && err != nil ==> wraps(err) != nil
+//@   ensures history_free [C19]: err == nil ==> h != nil && *h != nil && fresh(*h) && (blen(bstr_content(bytes(data))) == 0 ==> len(*h) == 0)
+//@         && (blen(bstr_content(bytes(data))) > 0 ==> mapdom(asmap(*h)) == dec_map_dom(decMode, bstr_content(bytes(data))))
 //@   ensures err_frame [C06, C19]: err != nil && h != nil ==> *h == old(*h)
 //@   modifies frame [C06, C18, C19]: *h
 
@@ -707,7 +709,8 @@ package cose
 //@   modifies frame [C18]: nothing
 
 //@ func (*UnprotectedHeader).UnmarshalCBOR
-//@   ensures accept [C01, C02, C03, C05, C06, C07, C13, C19]: err == nil ==> h != nil && unprotDecoded(bytes(data), *h) && fresh(*h)
+//@   ensures accept [C01, C02, C03, C05, C06, C07, C13]: err == nil ==> h != nil && unprotDecoded(bytes(data), *h) && fresh(*h)
+//@   ensures history_free [C19]: err == nil ==> h != nil && *h != nil && fresh(*h) && (forall k any :: (k in asmap(*h)) <==> dec_map_dom(decMode, bytes(data))[k])
 //@   ensures err_frame [C06, C19]: err != nil && h != nil ==> *h == old(*h)
 //@   modifies frame [C06, C18, C19]: *h
 //@   loop 1 invariant keys_copied: forall k any :: (k in header) <==> (k in seen)
@@ -716,12 +719,16 @@ package cose
 
 //@ func (*Headers).UnmarshalFromRaw
 //@   requires nonnil: h != nil
-//@   ensures ok [C01, C02, C03, C05, C06, C07, C13, C19]: err == nil ==> headersDecoded(*h) && fresh(h.Protected) && fresh(h.Unprotected)
+//@   ensures ok [C01, C02, C03, C05, C06, C07, C13]: err == nil ==> headersDecoded(*h) && fresh(h.Protected) && fresh(h.Unprotected)
 //@   ensures raw_kept [C01, C02, C03, C06, C07, C09, C19]: h.RawProtected == old(h.RawProtected) && h.RawUnprotected == old(h.RawUnprotected)
 //@   modifies frame [C01, C02, C03, C06, C07, C18, C19]: h.Protected, h.Unprotected
 
+//@ spec sigBytes(b Bytes, s *Signature) Bool = s != nil && bytes(s.Headers.RawProtected) == dec_elem(b, 0) && bytes(s.Headers.RawUnprotected) == dec_elem(b, 1)
+//@       && bytes(s.Signature) == bstr_content(dec_elem(b, 2))
+
 //@ func (*Signature).UnmarshalCBOR
-//@   ensures accept [C01, C02, C03, C05, C07, C09, C19]: err == nil ==> sigDecoded(bytes(data), s)
+//@   ensures history_free [C19]: err == nil ==> sigBytes(bytes(data), s)
+//@   ensures accept [C01, C02, C03, C05, C07, C09]: err == nil ==> sigDecoded(bytes(data), s)
 //@   ensures no_alias [C01, C19]: err == nil ==> fresh(s.Headers.RawProtected) && fresh(s.Headers.RawUnprotected) && fresh(s.Signature) && fresh(s.Headers.Protected) && fresh(s.Headers.Unprotected)
 //@   ensures err_frame [C01, C19]: err != nil && s != nil ==> *s == old(*s)
 //@   modifies frame [C01, C18, C19]: *s
@@ -733,30 +740,37 @@ package cose
 //@       && (dec_elem(b, 2) == byte1(246) ? m.Payload == nil : (m.Payload != nil && b_major(dec_elem(b, 2)) == 2 && bstr_wf(dec_elem(b, 2)) && bytes(m.Payload) == bstr_content(dec_elem(b, 2))))
 //@       && b_major(dec_elem(b, 3)) == 2 && bstr_wf(dec_elem(b, 3)) && bytes(m.Signature) == bstr_content(dec_elem(b, 3))
 //@       && headersDecoded(m.Headers)
+//@ spec sign1Bytes(b Bytes, m *Sign1Message) Bool = m != nil && bytes(m.Headers.RawProtected) == dec_elem(b, 0) && bytes(m.Headers.RawUnprotected) == dec_elem(b, 1)
+//@       && (dec_elem(b, 2) == byte1(246) ? m.Payload == nil : (m.Payload != nil && bytes(m.Payload) == bstr_content(dec_elem(b, 2))))
+//@       && bytes(m.Signature) == bstr_content(dec_elem(b, 3))
 //@ spec sign1Fresh(m *Sign1Message) Bool = fresh(m.Headers.RawProtected) && fresh(m.Headers.RawUnprotected) && fresh(m.Signature) && (m.Payload != nil ==> fresh(m.Payload))
 //@       && fresh(m.Headers.Protected) && fresh(m.Headers.Unprotected)
 
 //@ func (*Sign1Message).doUnmarshal
 //@   requires nonnil: m != nil
-//@   ensures accept [C01, C02, C03, C05, C06, C07, C09, C19]: err == nil ==> len(data) > 0 && (bat(bytes(data), 0) == 132 ==> sign1Decoded(bytes(data), m))
+//@   ensures accept [C01, C02, C03, C05, C06, C07, C09]: err == nil ==> len(data) > 0 && (bat(bytes(data), 0) == 132 ==> sign1Decoded(bytes(data), m))
 //@         && dec_shape_err(decModeWithTagsForbidden, bytes(data), "github.com/veraison/go-cose.sign1Message") == nil
 //@   ensures no_alias [C06, C19]: err == nil ==> sign1Fresh(m)
+//@   ensures history_free [C19]: err == nil && bat(bytes(data), 0) == 132 ==> sign1Bytes(bytes(data), m)
 //@   ensures err_frame [C06, C19]: err != nil ==> *m == old(*m)
 //@   modifies frame [C06, C18, C19]: *m
 
 //@ func (*Sign1Message).UnmarshalCBOR
-//@   ensures accept [C01, C02, C03, C05, C06, C07, C09, C19]: err == nil ==> m != nil && len(data) >= 2 && bat(bytes(data), 0) == 210 && sign1Decoded(bytes(data[1:]), m)
+//@   ensures accept [C01, C02, C03, C05, C06, C07, C09]: err == nil ==> m != nil && len(data) >= 2 && bat(bytes(data), 0) == 210 && sign1Decoded(bytes(data[1:]), m)
 //@   ensures no_alias [C01, C06, C19]: err == nil ==> sign1Fresh(m)
+//@   ensures history_free [C19]: err == nil ==> len(data) >= 2 && sign1Bytes(bytes(data[1:]), m)
 //@   ensures err_frame [C01, C06, C19]: err != nil && m != nil ==> *m == old(*m)
 //@   modifies frame [C01, C06, C18, C19]: *m
 
 //@ func (*UntaggedSign1Message).UnmarshalCBOR
-//@   ensures accept [C01, C02, C03, C05, C07, C09, C19]: err == nil ==> m != nil && sign1Decoded(bytes(data), m)
+//@   ensures history_free [C19]: err == nil ==> m != nil && sign1Bytes(bytes(data), m)
+//@   ensures accept [C01, C02, C03, C05, C07, C09]: err == nil ==> m != nil && sign1Decoded(bytes(data), m)
 //@   ensures err_frame [C01, C19]: err != nil && m != nil ==> *m == old(*m)
 //@   modifies frame [C01, C18, C19]: *m
 
 //@ func (*Countersignature).UnmarshalCBOR
-//@   ensures accept [C01, C02, C03, C05, C07, C09, C19]: err == nil ==> sigDecoded(bytes(data), s)
+//@   ensures history_free [C19]: err == nil ==> sigBytes(bytes(data), s)
+//@   ensures accept [C01, C02, C03, C05, C07, C09]: err == nil ==> sigDecoded(bytes(data), s)
 //@   ensures err_frame [C19]: err != nil && s != nil ==> *s == old(*s)
 //@   modifies frame [C18, C19]: *s
 
@@ -813,12 +827,12 @@ package cose
 //@         && len(arg1.(cbor.Tag).Content.(signMessage).Signatures) == len(m.Signatures)
 
 //@ func (*SignMessage).UnmarshalCBOR
-//@   ensures accept [C01, C02, C03, C05, C07, C09, C11, C19]: err == nil ==> m != nil && len(data) >= 3 && bat(bytes(data), 0) == 216 && bat(bytes(data), 1) == 98 && bat(bytes(data), 2) == 132
+//@   ensures accept [C01, C02, C03, C05, C07, C09, C11]: err == nil ==> m != nil && len(data) >= 3 && bat(bytes(data), 0) == 216 && bat(bytes(data), 1) == 98 && bat(bytes(data), 2) == 132
 //@         && dec_shape_err(decModeWithTagsForbidden, bytes(data[2:]), "github.com/veraison/go-cose.signMessage") == nil
 //@         && bytes(m.Headers.RawProtected) == dec_elem(bytes(data[2:]), 0) && bytes(m.Headers.RawUnprotected) == dec_elem(bytes(data[2:]), 1)
 //@         && headersDecoded(m.Headers)
 //@         && len(m.Signatures) > 0 && len(m.Signatures) == dec_count(bytes(data[2:]), 3)
-//@   ensures sigs [C01, C02, C03, C05, C07, C09, C11, C19]: err == nil ==> (forall i Int :: 0 <= i && i < len(m.Signatures) ==> m.Signatures[i] != nil && len(m.Signatures[i].Signature) > 0 && fresh(m.Signatures[i]))
+//@   ensures sigs [C01, C02, C03, C05, C07, C09, C11]: err == nil ==> (forall i Int :: 0 <= i && i < len(m.Signatures) ==> m.Signatures[i] != nil && len(m.Signatures[i].Signature) > 0 && fresh(m.Signatures[i]))
 //@   ensures no_alias [C01, C19]: err == nil ==> fresh(m.Headers.RawProtected) && fresh(m.Headers.RawUnprotected) && (m.Payload != nil ==> fresh(m.Payload)) && fresh(m.Signatures)
 //@         && fresh(m.Headers.Protected) && fresh(m.Headers.Unprotected)
 //@   ensures err_frame [C01, C19]: err != nil && m != nil ==> *m == old(*m) && (forall i Int :: 0 <= i && i < old(len(m.Signatures)) ==> m.Signatures[i] == old(m.Signatures[i]))
@@ -1288,7 +1302,7 @@ package cose
 //@   requires nonnil: k != nil
 //@   ensures complete [C14, C15]: dec_shape_err(decMode, bytes(data), "map[any]any") == nil && keyMapOK(dec_map_dom(decMode, bytes(data)), dec_map_val(decMode, bytes(data)))
 //@         && k.Type != 0 && keyShapeOK(k.Type, k.Params, k.Algorithm) ==> err == nil
-//@   ensures accept [C06, C14, C15, C19]: err == nil ==> k.Type != 0 && keyShapeOK(k.Type, k.Params, k.Algorithm)
+//@   ensures accept [C06, C14, C15]: err == nil ==> k.Type != 0 && keyShapeOK(k.Type, k.Params, k.Algorithm)
 //@         && dec_shape_err(decMode, bytes(data), "map[any]any") == nil
 //@         && int64(1) in dec_map_dom(decMode, bytes(data)) && any_canint(dec_map_val(decMode, bytes(data))[int64(1)]) && k.Type == any_intval(dec_map_val(decMode, bytes(data))[int64(1)])
 //@   ensures labels [C14, C15, C19]: err == nil ==> (forall q any :: q in k.Params ==> (q is int64 || q is string) && q != int64(1) && q != int64(2) && q != int64(3) && q != int64(4) && q != int64(5))
